@@ -69,8 +69,11 @@ def gen_data_spec(rng, n_surveys=1, unit=None, n_epochs=None, layout=None, t_ref
         rvv = rvv + (np.arange(len(tk)) + tag + 1) * 1e-9 * (np.abs(rvv) + 1)
         tag += len(tk)
         order = rng.permutation(len(tk)) if rng.random() < 0.5 else np.arange(len(tk))
-        surveys.append(dict(unit=sunit, t=[float(x) for x in tk[order]], rv=[float(x) for x in rvv[order]],
-                            err=[float(x) for x in (sig * f)[order]]))
+        # the uncertainties may be declared in another velocity unit than the velocities of the same survey
+        eunit = sunit if rng.random() < 0.8 else str(rng.choice(VEL_UNITS))
+        fe = conv(1.0, "km/s", eunit)
+        surveys.append(dict(unit=sunit, err_unit=eunit, t=[float(x) for x in tk[order]], rv=[float(x) for x in rvv[order]],
+                            err=[float(x) for x in (sig * fe)[order]]))
     t_ref_kind = t_ref_kind or ("default" if (n_surveys > 1 or rng.random() < 0.6) else
                                 str(rng.choice(["inside", "before", "far"], p=[.5, .4, .1])))
     t_ref = None
@@ -82,8 +85,19 @@ def gen_data_spec(rng, n_surveys=1, unit=None, n_epochs=None, layout=None, t_ref
     if form == "dict":
         pool = [["apogee", "lamost", "weave", "boss"], [3, 1, 2, 0], ["b", "a", "d", "c"], [10, 2, 33, 4]][rng.integers(0, 4)]
         keys = [pool[i] for i in rng.permutation(len(pool))[:n_surveys]]
+    # an explicit reference epoch may be given on another time scale than TCB (astropy's default is UTC):
+    # `t_ref` below stays the TCB value (what the data's BMJD are compared with), `t_ref_input` is what is passed
+    t_ref_scale = "tcb"
+    t_ref_input = t_ref
+    if t_ref is not None:
+        t_ref_scale = str(rng.choice(["tcb", "utc", "tdb"], p=[.4, .4, .2]))
+        if t_ref_scale != "tcb":
+            from astropy.time import Time
+            t_ref_input = float(getattr(Time(t_ref, format="mjd", scale="tcb"), t_ref_scale).mjd)
+            t_ref = float(Time(t_ref_input, format="mjd", scale=t_ref_scale).tcb.mjd)
     return dict(unit=surveys[0]["unit"], form=form, keys=keys, surveys=surveys, t_ref=t_ref, layout=layout,
-                t_ref_kind=t_ref_kind, err_scale_kms=err_scale, signal=signal, base=base)
+                t_ref_kind=t_ref_kind, err_scale_kms=err_scale, signal=signal, base=base,
+                t_ref_scale=t_ref_scale, t_ref_input=t_ref_input)
 
 
 def build_data(dspec):
@@ -94,8 +108,9 @@ def build_data(dspec):
     for s in dspec["surveys"]:
         kw = {}
         if dspec["t_ref"] is not None and len(dspec["surveys"]) == 1:
-            kw["t_ref"] = Time(dspec["t_ref"], format="mjd", scale="tcb")
-        objs.append(RVData(np.array(s["t"]), np.array(s["rv"]) * U(s["unit"]), np.array(s["err"]) * U(s["unit"]), **kw))
+            kw["t_ref"] = Time(dspec.get("t_ref_input", dspec["t_ref"]), format="mjd", scale=dspec.get("t_ref_scale", "tcb"))
+        objs.append(RVData(np.array(s["t"]), np.array(s["rv"]) * U(s["unit"]),
+                           np.array(s["err"]) * U(s.get("err_unit", s["unit"])), **kw))
     if dspec["form"] == "single":
         return objs[0]
     if dspec["form"] == "list":
@@ -110,9 +125,10 @@ def merged(dspec, assignment=None):
     t, y, sg, lab = [], [], [], []
     for k, s in enumerate(dspec["surveys"]):
         f = conv(1.0, s["unit"], du)
+        fe = conv(1.0, s.get("err_unit", s["unit"]), du)
         t += list(s["t"])
         y += [v * f for v in s["rv"]]
-        sg += [v * f for v in s["err"]]
+        sg += [v * fe for v in s["err"]]
         lab += [k] * len(s["t"])
     t, y, sg, lab = map(np.array, (t, y, sg, lab))
     o = np.argsort(t, kind="stable")
